@@ -95,7 +95,7 @@ checks = {
         "kani": [dict(h, also=["C03.ctor_retention_stored", "C03.ctor_epoch_counts_sets", "C03.ctor_propagates_refusal"]) for h in gw_ctor] + [dict(gw_rotate_entry, also=["C03.entry_propagates_refusal"]), dict(gw_rotate_auth[0], also=["C03.never_installed_before", "C03.epoch_by_hash_set", "C03.epoch_plus_one"])] + [dict(gw_approve[1], also=["C01.approve_only_with_valid_proof", "C01.approve_digest", "C01.approve_err_is_proof_err"])] + [k(GW, C + "c01_validate_proof_entry", "AxelarGateway::validate_proof", also=["C01.entry"])],
     },
     "C09": {
-        "kani": [gw_update_ts, k(GW, A + "c03_rotate_signers", "auth::rotate_signers", also=["C03.delay_flag_forwarded"]), gw_rotate_entry],
+        "kani": [gw_update_ts, k(GW, A + "c03_rotate_signers", "auth::rotate_signers", also=["C03.delay_flag_forwarded"]), dict(gw_rotate_entry, also=["C06.bypass_needs_operator"])],
     },
     "C13": {
         "kani": [k(GW, C + "c13_call_contract", "AxelarGateway::call_contract"),
@@ -146,7 +146,7 @@ checks["C06"] = {"kani": [
     gas("c06_gas_transfer_ownership", "transfer_ownership"), gas("c14_collect_fees", "collect_fees"), gas("c14_refund", "refund"), gas("c14_constructor_and_view", "__constructor"),
     ops("c06_operators_transfer_ownership", "transfer_ownership"), ops("c17_add_operator", "add_operator", also=["C17.add_absent_to_present", "C17.add_frame"]),
     ops("c17_remove_operator", "remove_operator", also=["C17.remove_present_to_absent", "C17.remove_frame"]), ops("c17_execute", "execute", also=["C17.only_current_operators"]),
-] + token_admin + [dict(h, also=["C15.upgrade_needs_owner", "C15.migrate_needs_owner"]) for h in upgrades[:-1]]}
+] + token_admin + [dict(h, also=["C15.upgrade_needs_owner", "C15.migrate_needs_owner", "C15.migrate_frame", "C15.upgrade_frame"]) for h in upgrades[:-1]]}  # the frames: an upgrade / migration hands no role to anybody
 checks["C07"] = {"kani": [
     # a negative amount would debit the counterparty without its authorisation, so the sign checks belong here too
     tok("c12_transfer", "transfer", also=["C12.transfer_rejects_negative"]), tok("c12_approve", "approve", also=["C12.approve"]),  # a dropped / partly applied approve leaves a spender with rights the holder no longer authorises
@@ -183,7 +183,10 @@ checks["C05"] = {"kani": [
     # (so a delivery cannot be replayed), through the default validate_message of the executable interface and the gateway's C02 contract
     dict(its_c04[0], also=["C04.approval_consumed", "C04.and_execute_message", "C04.entry_frame"]),
     k(GW, "executable::verif::c16_default_validate_message", "AxelarExecutableInterface::validate_message (default)", also=["C16.default"]),
-    gw_once[0],
+    gw_once[0], gw_once[1], gw_once[2],  # ... and an executed id is never approved again
+    gas("c14_pay_gas", "pay_gas", also=["C14.payment", "C07.pay_gas"]),  # the gas named in an outbound transfer is taken from the named spender
+    # who may change a service-deployed token's supply: the minter set changes only as the owner says
+    tok("c06_token_add_minter", "add_minter", also=["C06.add_minter"]), tok("c06_token_remove_minter", "remove_minter", also=["C06.remove_minter"]),
     # the token contract the service relies on for burns / mints / custody transfers (C12)
     tok("c12_transfer", "transfer", also=["C12.transfer", "C12.self_transfer", "C12.balances"]), tok("c12_burn", "burn", also=["C12.burn"]),
     tok("c12_mint_from", "mint_from", also=["C12.mint", "C12.only_current", "C12.refused_mint"]), tok("c12_owner_mint", "mint", also=["C12.owner_mint"]),
@@ -201,10 +204,12 @@ checks["C18"] = {"kani": [
     its("c18_deploy_remote_interchain_token", "deploy_remote_interchain_token"), its("c18_deploy_remote_canonical_token", "deploy_remote_canonical_token"),
     its("c18_deploy_remote_token", "deploy_remote_token"), its("c18_validate_token_metadata", "axelar_soroban_std::token::validate_token_metadata"),
     its("c05_pay_gas_and_call_contract", "pay_gas_and_call_contract", also=["C05.only_trusted_destination", "C05.gas_then_call", "C05.payload_is"]),
+    # "the stated gas is paid from the payer": the service calls pay_gas; that the gas service then takes exactly that amount from the named spender is its own contract
+    gas("c14_pay_gas", "pay_gas", also=["C14.payment", "C07.pay_gas"]),
 ]}
 checks["C06"]["kani"] += [its("c06_its_set_trusted_chain", "set_trusted_chain"), its("c06_its_remove_trusted_chain", "remove_trusted_chain"), its("c06_its_constructor_and_views", "__constructor"),
                            its("c06_its_transfer_ownership", "transfer_ownership"),
-                           its("c15_its_upgrade", "upgrade (derived)", also=["C15.upgrade_needs_owner"]), its("c15_its_migrate", "migrate (derived)", also=["C15.migrate_needs_owner"])]
+                           its("c15_its_upgrade", "upgrade (derived)", also=["C15.upgrade_needs_owner", "C15.upgrade_frame"]), its("c15_its_migrate", "migrate (derived)", also=["C15.migrate_needs_owner", "C15.migrate_frame"])]
 checks["C15"]["kani"] += [its("c15_its_upgrade", "upgrade (derived)"), its("c15_its_migrate", "migrate (derived)")]
 checks["C07"]["kani"] += [its("c05_interchain_transfer", "interchain_transfer"), its("c11_deploy_interchain_token", "deploy_interchain_token"),
                            its("c18_deploy_remote_interchain_token", "deploy_remote_interchain_token")]
@@ -221,6 +226,44 @@ checks["C10"] = {"scans": ["c10_strict_flag"], "codec_differential": True, "kani
     k(ITS, AB + "c10_optional_bytes_len2_bounded", "abi::into_vec / abi::from_vec", bounded="present field of length 2, symbolic content"),
 ]}
 
+# the set a proof is checked against is exactly the list of signers the proof names (Verus for any length; bounded Kani companion)
+_ws = k(GW, C + "c01_weighted_signers_n3_bounded", "Proof::weighted_signers", bounded="a proof of exactly 3 entries (the Verus contract C01.weighted_signers.* covers any length)", also=["C01.weighted_signers"])
+checks["C03"]["kani"].append(_ws)
+checks["C08"]["kani"].append(_ws)
+# Kani companions of the Verus contracts on validate_proof (any size; callees that look into the signer list replaced by
+# their contracts) and validate_signatures (bounded: every signed/unsigned pattern of 2 and of 3 entries)
+_vp = k(GW, A + "c08_validate_proof", "auth::validate_proof", also=["C01.vp_", "C08.vp_"])
+_vs = [
+    k(GW, A + "c01_validate_signatures_ss_bounded", "auth::validate_signatures", bounded="proof entries: SS (S = signed, U = unsigned; keys, weights, signatures, threshold, digest symbolic)"),
+    k(GW, A + "c01_validate_signatures_su_bounded", "auth::validate_signatures", bounded="proof entries: SU (S = signed, U = unsigned; keys, weights, signatures, threshold, digest symbolic)"),
+    k(GW, A + "c01_validate_signatures_us_bounded", "auth::validate_signatures", bounded="proof entries: US (S = signed, U = unsigned; keys, weights, signatures, threshold, digest symbolic)"),
+    k(GW, A + "c01_validate_signatures_uu_bounded", "auth::validate_signatures", bounded="proof entries: UU (S = signed, U = unsigned; keys, weights, signatures, threshold, digest symbolic)"),
+    k(GW, A + "c01_validate_signatures_sss_bounded", "auth::validate_signatures", bounded="proof entries: SSS (S = signed, U = unsigned; keys, weights, signatures, threshold, digest symbolic)"),
+    k(GW, A + "c01_validate_signatures_ssu_bounded", "auth::validate_signatures", bounded="proof entries: SSU (S = signed, U = unsigned; keys, weights, signatures, threshold, digest symbolic)"),
+    k(GW, A + "c01_validate_signatures_sus_bounded", "auth::validate_signatures", bounded="proof entries: SUS (S = signed, U = unsigned; keys, weights, signatures, threshold, digest symbolic)"),
+    k(GW, A + "c01_validate_signatures_suu_bounded", "auth::validate_signatures", bounded="proof entries: SUU (S = signed, U = unsigned; keys, weights, signatures, threshold, digest symbolic)"),
+    k(GW, A + "c01_validate_signatures_uss_bounded", "auth::validate_signatures", bounded="proof entries: USS (S = signed, U = unsigned; keys, weights, signatures, threshold, digest symbolic)"),
+    k(GW, A + "c01_validate_signatures_usu_bounded", "auth::validate_signatures", bounded="proof entries: USU (S = signed, U = unsigned; keys, weights, signatures, threshold, digest symbolic)"),
+    k(GW, A + "c01_validate_signatures_uus_bounded", "auth::validate_signatures", bounded="proof entries: UUS (S = signed, U = unsigned; keys, weights, signatures, threshold, digest symbolic)"),
+    k(GW, A + "c01_validate_signatures_uuu_bounded", "auth::validate_signatures", bounded="proof entries: UUU (S = signed, U = unsigned; keys, weights, signatures, threshold, digest symbolic)"),
+]
+checks["C01"]["kani"] += [_vp] + _vs
+checks["C08"]["kani"] += [_vp]
+checks["C03"]["kani"] += [_vp]
+# key-agnostic scenario harnesses (separately compiled API-only units: they name exported entry points only, so they
+# still decide their clauses when a change gives the storage keys another type or shape and the main harnesses stop compiling)
+GWA, OPSA = "axelar-gateway-api", "axelar-operators-api"
+_gw_api = [
+    k(GWA, C + "c02_api_other_ids_untouched", "AxelarGateway::approve_messages / is_message_approved / is_message_executed (scenario)", bounded="scenario: one approval step, one other id"),
+    k(GWA, C + "c02_api_lifecycle", "AxelarGateway::approve_messages / validate_message / queries (scenario)", bounded="scenario: approve, consume, consume again — one message"),
+    k(GWA, C + "c02_api_two_distinct_ids_from_empty_registry", "AxelarGateway::approve_messages (scenario from an empty registry)", bounded="scenario: one batch of two messages on an empty registry"),
+]
+checks["C02"]["kani"] += _gw_api
+checks["C16"]["kani"] += [dict(_gw_api[1], also=["C02.api_consume", "C02.api_consumed"])]
+checks["C17"]["kani"] += [
+    k(OPSA, T + "c17_api_membership_only_by_add_remove", "AxelarOperators::is_operator / transfer_ownership (scenario)", bounded="scenario: one ownership transfer"),
+    k(OPSA, T + "c17_api_add_then_remove", "AxelarOperators::add_operator / remove_operator / is_operator (scenario)", bounded="scenario: add then remove one address, one bystander"),
+]
 checks["C02"]["lemmas"] = ["c02_history_monotone"]
 checks["C05"]["lemmas"] = ["c05_history_custody"]
 checks["C14"]["lemmas"] = ["c14_history_balance"]
